@@ -96,6 +96,10 @@ func init() {
 			default:
 				cs.Templates[bn] = "{% if x %}" + src
 			}
+			// sometimes a second fault further on (a parser error followed by a lexer error or vice versa)
+			if rapid.IntRange(0, 2).Draw(t, "second") == 0 {
+				cs.Templates[bn] += rapid.SampledFrom([]string{" and {{ 'never closed }}", "{{ 1 2 }}", "{{ ! }}", "{% block %}", "{# open"}).Draw(t, "junk2")
+			}
 			broken = append(broken, bn)
 		}
 		cs.Templates["rtfail"] = "before{% for a in 5 %}{% endfor %}after"
@@ -103,7 +107,10 @@ func init() {
 		cs.Templates["ext-broken"] = "{% extends '" + pickOr(broken, "missing") + "' %}{% block a %}x{% endblock %}"
 		cs.Templates["inc-missing"] = "a{% include 'missing' %}b"
 		cs.Templates["imp-broken"] = "{% import '" + pickOr(broken, "missing") + "' as q %}z"
-		all := append(append([]string{}, names...), broken...)
+		// a name that resolves to a directory with the filesystem loader
+		cs.Templates["subdir/inner"] = "inner {{ 1 }}"
+		cs.Templates["inc-dir"] = "a{% include 'subdir' %}b"
+		all := append(append([]string{"subdir", "inc-dir", "subdir/inner"}, names...), broken...)
 		all = append(all, "rtfail", "inc-broken", "ext-broken", "inc-missing", "imp-broken", "missing")
 		n := rapid.IntRange(1, maxCalls).Draw(t, "ncalls")
 		for i := 0; i < n; i++ {
